@@ -59,6 +59,14 @@ func (w *fgWalker) requireAll(st *fgState, where, pos string) {
 	if st.repsRead {
 		need = append(need, "rep-level-encoding")
 	}
+	// the converse: a level encoding is only a reason to refuse a page when the column decodes such levels — writers
+	// declare BIT_PACKED for the (empty) level streams of columns without them
+	for n, read := range map[string]bool{"def-level-encoding": st.defsRead, "rep-level-encoding": st.repsRead} {
+		if st.est[n] && !read {
+			s := w.g.sel(n)
+			w.add("over:"+n, pos, fmt.Sprintf("%s.%s is compared with %s on a path that consumes the page (%s at %s) without decoding such levels: a conformant file whose writer declares another encoding for the empty level stream of this column is refused", s.owner, s.field, s.konst, where, pos))
+		}
+	}
 	for _, n := range need {
 		if !st.est[n] {
 			s := w.g.sel(n)
